@@ -13,6 +13,7 @@ MOD = "char_reader_c18"
 Q = ("quick", "thorough")
 T = ("thorough",)
 S7 = "CharReader::read_chunk -> same body with an 8-byte stack buffer"
+S9 = "char::len_utf8 -> the constant of the harness's length class (character assumed in that class)"
 
 # quick core: every boundary named in DESIGN (compaction branch buf.len in 5..7 with pos on both
 # sides of 4, empty buffer, exhausted buffer, EOF with an incomplete remainder)
@@ -39,12 +40,14 @@ def harnesses():
                           bounds="the 4 bytes at the read position symbolic", stubs=(S7,),
                           covers_required=False))
     for bl, pos in gen_c18.putbacks():
-        quick = (bl, pos) in {(0, 0), (5, 2)}
-        hs.append(Harness(SRC, MOD, "c18_putback_%d_%d" % (bl, pos), cost=60, timeout=1200,
-                          tiers=Q if quick else T,
-                          desc="put_back_char(any char) from (buf.len=%d,pos=%d) then peek "
-                               "returns it; older unread bytes follow" % (bl, pos),
-                          bounds="any Unicode scalar value", stubs=(S7,), covers_required=False))
+        for cls in (1, 2, 3, 4):
+            quick = (bl, pos, cls) in {(0, 0, 2), (5, 2, 3), (5, 2, 1), (6, 6, 4), (5, 3, 4)}
+            hs.append(Harness(SRC, MOD, "c18_putback_%d_%d_c%d" % (bl, pos, cls), cost=60, timeout=1200,
+                              tiers=Q if quick else T,
+                              desc="put_back_char(any %d-byte char) from (buf.len=%d,pos=%d) then peek "
+                                   "returns it; older unread bytes follow" % (cls, bl, pos),
+                              bounds="every scalar value of that UTF-8 length", stubs=(S7, S9),
+                              covers_required=False))
     hs.append(Harness(SRC, MOD, "c18_read_char_advances", cost=60, timeout=1200,
                       desc="read_char consumes exactly the decoded char", bounds="buf.len=6,pos=1",
                       stubs=(S7,), covers_required=False))
@@ -66,7 +69,7 @@ ASSUME = [
 ]
 BOUNDS = ("lattice buf.len 0..8 x pos 0..buf.len x chunk 0..4 = 225 states (thorough: all; quick: "
           "11 core states around the compaction branch and EOF + 2 chosen by VERIF_SEED); "
-          "put_back from 28 states (quick 2); unwind 14")
+          "put_back from 28 states x 4 UTF-8 length classes (quick 5); unwind 14")
 OUTSIDE = ("unread remainders longer than 8 bytes; more than one further read; "
            "InputChannelStream/socket plumbing; Read::read/read_exact/read_vectored paths")
 
